@@ -4,6 +4,7 @@
  */
 #include <asn_internal.h>
 #include <asn_codecs_prim.h>
+#include <errno.h>
 
 /*
  * The OER decoder of any type.
@@ -28,6 +29,15 @@ oer_decode(const asn_codec_ctx_t *opt_codec_ctx,
 		memset(&s_codec_ctx, 0, sizeof(s_codec_ctx));
 		s_codec_ctx.max_stack_size = ASN__DEFAULT_STACK_MAX;
 		opt_codec_ctx = &s_codec_ctx;
+	}
+
+	if(!type_descriptor->op->oer_decoder) {
+		/* OER is not defined for this type */
+		asn_dec_rval_t rval;
+		rval.code = RC_FAIL;
+		rval.consumed = 0;
+		errno = ENOENT;
+		return rval;
 	}
 
 	/*
@@ -80,6 +90,11 @@ oer_open_type_get(const asn_codec_ctx_t *opt_codec_ctx,
     if(size - len_len < container_len) {
         /* More data is expected */
         return 0;
+    }
+
+    if(!td->op->oer_decoder) {
+        /* OER is not defined for this type */
+        return -1;
     }
 
     dr = td->op->oer_decoder(opt_codec_ctx, td, constraints, struct_ptr,
